@@ -23,8 +23,77 @@ type EntH struct {
 
 type entSet struct {
 	Col string
-	Op  string // set clear add
+	Op  string // set setif clear add sym
 	Val *Term
+	OpT *Term // for sym: 0 untouched, 1 set, 2 cleared, 3 added
+}
+
+// Update builders are mirrored in ghost arrays indexed by the builder's handle id
+//   UB|<table>|<col>$op   0 untouched, 1 set, 2 cleared, 3 added
+//   UB|<table>|<col>      the value set / added
+// so that loop invariants can talk about a builder that is filled in by a loop (update masks). While a
+// builder has not crossed a loop cut the engine-side list Sets is authoritative and the arrays agree with it.
+func ubKey(t *entTable, col string) string   { return "UB|" + t.Name + "|" + col }
+func ubOpKey(t *entTable, col string) string { return "UB|" + t.Name + "|" + col + "$op" }
+
+func (st *State) ubRecord(b *entBuilder, s entSet) {
+	b.Sets = append(b.Sets, s)
+	t := b.Table
+	c := t.ByName[s.Col]
+	if c == nil || b.Kind != "update" {
+		return
+	}
+	r := IntLit(int64(b.ID))
+	op := int64(1)
+	switch s.Op {
+	case "clear":
+		op = 2
+	case "add":
+		op = 3
+	}
+	ok := ubOpKey(t, s.Col)
+	st.heapSet(ok, Store(st.heapGet(st.heap, ok, ArrS(SInt, SInt), false), r, IntLit(op)))
+	if s.Val != nil && s.Val.Sort == c.Sort {
+		vk := ubKey(t, s.Col)
+		st.heapSet(vk, Store(st.heapGet(st.heap, vk, ArrS(SInt, c.Sort), false), r, s.Val))
+	}
+}
+
+// effSets: the assignments an update builder carries when it is executed.
+func (st *State) effSets(b *entBuilder) []entSet {
+	if !b.Sym {
+		return b.Sets
+	}
+	t := b.Table
+	r := IntLit(int64(b.ID))
+	var out []entSet
+	for _, c := range t.Cols {
+		if c.Name == "id" {
+			continue
+		}
+		op := Select(st.heapGet(st.heap, ubOpKey(t, c.Name), ArrS(SInt, SInt), false), r)
+		val := Select(st.heapGet(st.heap, ubKey(t, c.Name), ArrS(SInt, c.Sort), false), r)
+		out = append(out, entSet{Col: c.Name, Op: "sym", Val: val, OpT: op})
+	}
+	return out
+}
+
+// ubCount: whether the builder carries at least one assignment of kind op (1 set, 2 clear, 3 add).
+func (st *State) ubAny(b *entBuilder, op int64) *Term {
+	if !b.Sym {
+		for _, s := range b.Sets {
+			switch {
+			case op == 1 && (s.Op == "set" || s.Op == "setif"), op == 2 && s.Op == "clear", op == 3 && s.Op == "add":
+				return TTrue
+			}
+		}
+		return TFalse
+	}
+	var ds []*Term
+	for _, s := range st.effSets(b) {
+		ds = append(ds, Eq(s.OpT, IntLit(op)))
+	}
+	return Or(ds...)
 }
 
 type entWith struct {
@@ -37,6 +106,8 @@ type entBuilder struct {
 	Table    *entTable
 	Preds    []SVal
 	Sets     []entSet
+	Sym      bool // Sets is stale (the builder crossed a loop cut that may have mutated it): read the UB arrays
+	ID       int
 	OneID    *Term
 	Limit    *Term
 	Order    []entOrder
@@ -158,7 +229,14 @@ func (w *entWorld) newID() int { w.next++; return w.next }
 func (st *State) newBuilder(kind string, t *entTable) *EntH {
 	w := st.world()
 	id := w.newID()
-	w.builders[id] = &entBuilder{Kind: kind, Table: t}
+	w.builders[id] = &entBuilder{Kind: kind, Table: t, ID: id}
+	if kind == "update" {
+		r := IntLit(int64(id))
+		for _, c := range t.Cols {
+			ok := ubOpKey(t, c.Name)
+			st.heapSet(ok, Store(st.heapGet(st.heap, ok, ArrS(SInt, SInt), false), r, IntLit(0)))
+		}
+	}
 	return &EntH{Kind: kind, ID: id}
 }
 
@@ -262,19 +340,10 @@ func (st *State) entCall(fr *Frame, in ssa.CallInstruction, callee *ssa.Function
 		if strings.HasSuffix(rt, "Mutation") && strings.HasPrefix(rt, "*"+e.modPath+"/ent.") {
 			if h, ok := args[0].(*EntH); ok && (name == "Fields" || name == "ClearedFields" || name == "AddedFields") {
 				b := st.builder(h)
-				n := 0
-				for _, s := range b.Sets {
-					switch {
-					case name == "Fields" && (s.Op == "set" || s.Op == "setif"):
-						n++
-					case name == "ClearedFields" && s.Op == "clear":
-						n++
-					case name == "AddedFields" && s.Op == "add":
-						n++
-					}
-				}
+				op := map[string]int64{"Fields": 1, "ClearedFields": 2, "AddedFields": 3}[name]
 				sv := st.freshVal("mutfields", callee.Signature.Results().At(0).Type()).(*SliceV)
-				st.assume(Eq(sv.Len, IntLit(int64(n))))
+				st.assume(Ge(sv.Len, IntLit(0)))
+				st.assume(Eq(Gt(sv.Len, IntLit(0)), st.ubAny(b, op)))
 				k(st, sv)
 				return true
 			}
@@ -1120,7 +1189,7 @@ func (st *State) entMethod(fr *Frame, in ssa.CallInstruction, callee *ssa.Functi
 		val := st.colValueOf(col, st.load(st.heap, st.ptrAddr(p, vt)))
 		st.e.notes = append(st.e.notes, "SetNillable treated as conditional set")
 		// conditional set: value if pointer non-nil else keep
-		b.Sets = append(b.Sets, entSet{Col: col.Name, Op: "setif", Val: Ite(Neq(p, IntLit(0)), val, val)})
+		st.ubRecord(b, entSet{Col: col.Name, Op: "setif", Val: Ite(Neq(p, IntLit(0)), val, val)})
 		_ = p
 		k(st, recv)
 	case strings.HasPrefix(name, "Set"):
@@ -1130,33 +1199,33 @@ func (st *State) entMethod(fr *Frame, in ssa.CallInstruction, callee *ssa.Functi
 			// edge setters: SetSubscription(s) == SetSubscriptionID(s.ID)
 			if ed := t.Edges[fname]; ed != nil && ed.M2O {
 				target := st.e.ent.Tables[ed.Target]
-				b.Sets = append(b.Sets, entSet{Col: ed.FKCol, Op: "set", Val: st.entityID(target, args[1])})
+				st.ubRecord(b, entSet{Col: ed.FKCol, Op: "set", Val: st.entityID(target, args[1])})
 				k(st, recv)
 				return
 			}
 			st.unsupported("ent: %s on unknown field", name)
 		}
-		b.Sets = append(b.Sets, entSet{Col: col.Name, Op: "set", Val: st.setterValue(col, callee, args[1])})
+		st.ubRecord(b, entSet{Col: col.Name, Op: "set", Val: st.setterValue(col, callee, args[1])})
 		k(st, recv)
 	case strings.HasPrefix(name, "Clear"):
 		fname := strings.TrimPrefix(name, "Clear")
 		col := t.ByFld[fname]
 		if col == nil {
 			if ed := t.Edges[fname]; ed != nil && ed.M2O {
-				b.Sets = append(b.Sets, entSet{Col: ed.FKCol, Op: "clear"})
+				st.ubRecord(b, entSet{Col: ed.FKCol, Op: "clear"})
 				k(st, recv)
 				return
 			}
 			st.unsupported("ent: %s on unknown field", name)
 		}
-		b.Sets = append(b.Sets, entSet{Col: col.Name, Op: "clear"})
+		st.ubRecord(b, entSet{Col: col.Name, Op: "clear"})
 		k(st, recv)
 	case strings.HasPrefix(name, "Add") && kind != "Query":
 		col := t.ByFld[strings.TrimPrefix(name, "Add")]
 		if col == nil {
 			st.unsupported("ent: %s on unknown field", name)
 		}
-		b.Sets = append(b.Sets, entSet{Col: col.Name, Op: "add", Val: st.scalar(args[1])})
+		st.ubRecord(b, entSet{Col: col.Name, Op: "add", Val: st.scalar(args[1])})
 		k(st, recv)
 	case name == "Mutation":
 		k(st, recv)
